@@ -180,6 +180,8 @@ func BuildSchemaValidation(schema *openapi3.SchemaRef, validationString string, 
 				logger.Warn("Validation rule 'enum' must have at least one value")
 				schema.Value.Enum = nil
 			} else {
+				// The rule states the complete member list (as `oneof` does, and as the 3.1 converter does)
+				schema.Value.Enum = make([]interface{}, 0, len(enumValues))
 				for _, v := range enumValues {
 					schema.Value.Enum = append(schema.Value.Enum, v)
 				}
